@@ -359,7 +359,7 @@ Qed.
 
 Theorem chk_C07_sound n names : chk_C07 n names = [] -> C07_on n names.
 Proof.
-  unfold chk_C07, C07_on. intros H.
+  unfold chk_C07, C07_on. intros H. apply app_nil in H. destruct H as (_ & H).
   repeat (apply app_nil in H; let Hx := fresh "G" in destruct H as (Hx & H)).
   apply guard_nil in G, G0, G1, G2, G3.
   split; [apply nodupb_idv; exact G|]. split; [apply nodupb_str; exact G0|].
